@@ -421,7 +421,7 @@ func perturb4(v interface{}) interface{} {
 		}
 		return l
 	case string:
-		return x + "x"
+		return perturbString(x)
 	case bool:
 		return !x
 	case stdjson.Number:
